@@ -258,6 +258,10 @@ def main(argv=None):
     extra["known_findings_matched"] = len(knowns_printed)
     C.write_evidence(prop, tier, seed, agg, time.monotonic() - t0, extra,
                      violations=reported)
+    stuck = [x for x in prop.EXPECTED_PROBES if not agg.probes.get(x)]
+    if stuck:
+        print(f"  PROBE-ZERO {stuck} (reach probes that never fired in this "
+              "run; informational)")
     if harness:
         for h in harness:
             print(f"HARNESS-ERROR {h}")
